@@ -195,6 +195,30 @@ func c09Facts(w *bytes.Buffer) {
 	}
 	fmt.Fprintf(w, "def cutoffOp : String := %s\n", leanStr(op))
 	fmt.Fprintf(w, "def cutoffIncrements : Bool := %v\n\n", inc)
+	// --- lazy array-formula expansion (cell.go: getCellFormula) ---------------
+	w.WriteString("/-! lazy expansion of array formulas (cell.go: getCellFormula): is `f.formulaChecked = true` placed before the `setArrayFormulaCells()` call (then a failed expansion is reported once only)? -/\n")
+	assignIdx, callIdx := -1, -1
+	if fd := funcDecl("File", "getCellFormula"); fd != nil {
+		ast.Inspect(fd.Body, func(x ast.Node) bool {
+			is, ok := x.(*ast.IfStmt)
+			if !ok || !strings.Contains(src(is.Cond), "formulaChecked") {
+				return true
+			}
+			for i, st := range is.Body.List {
+				t := src(st)
+				if as, ok := st.(*ast.AssignStmt); ok && strings.Contains(src(as.Lhs[0]), "formulaChecked") {
+					assignIdx = i
+				} else if strings.Contains(t, "setArrayFormulaCells()") {
+					callIdx = i
+				}
+			}
+			return false
+		})
+	}
+	if assignIdx < 0 || callIdx < 0 {
+		fail("getCellFormula: if transformed && !f.formulaChecked { ...setArrayFormulaCells()...; f.formulaChecked = true }")
+	}
+	fmt.Fprintf(w, "def flagSetBeforeExpansion : Bool := %v\n\n", assignIdx >= 0 && callIdx >= 0 && assignIdx < callIdx)
 	// --- unguarded assertion sites ------------------------------------------
 	w.WriteString("/-! number of `Peek().(T)` / `Pop().(T)` type assertions per modelled function -/\n")
 	w.WriteString("def assertSites : List (String × Nat) := [")
